@@ -76,3 +76,12 @@ Theorem C06_bluegreen_handed_back_whatever_call_failed : forall k n steps (f : H
   Corr.HandBack.all_phases_done errs = true -> HandBack.handed_back k w0 w = true.
 Proof. exact Proofs.HandBack.handed_back_as_configured. Qed.
 Print Assumptions C06_bluegreen_handed_back_whatever_call_failed.
+
+(* the release marker is the last thing the blue-green Initialize writes: if the workload carries it afterwards -- whichever
+   Patch failed, however often Initialize was attempted -- the HPA has been detached (a retry that finds the marker returns at
+   once, so nothing would detach it later) *)
+Theorem C06_bluegreen_release_marker_means_hpa_detached : forall k n (f : HandBack.fault) w0 errs w,
+  HandBack.fresh w0 = true -> HandBack.scenario k n false [HandBack.PInit] f w0 = (errs, w) ->
+  HandBack.w_claimed w = true -> HandBack.w_hpa w <> Some false.
+Proof. exact Proofs.HandBack.marker_means_hpa_detached. Qed.
+Print Assumptions C06_bluegreen_release_marker_means_hpa_detached.
